@@ -958,6 +958,16 @@ impl QueryEngine {
         }
     }
 
+    /// Verification hook: age the pending requests of a `FIND_NODE`-based query (logical clock).
+    pub fn verif_age_pending(&mut self, query: QueryId, by: std::time::Duration) -> bool {
+        match self.queries.get_mut(&query) {
+            Some(QueryType::FindNode { context }) => context.verif_age_pending(by),
+            Some(QueryType::PutRecord { context, .. }) => context.verif_age_pending(by),
+            Some(QueryType::AddProvider { context, .. }) => context.verif_age_pending(by),
+            _ => true,
+        }
+    }
+
     /// Verification hook: shorten the peer timeout of a `FIND_NODE`-based query.
     pub fn verif_set_peer_timeout(&mut self, query: QueryId, timeout: std::time::Duration) {
         match self.queries.get_mut(&query) {
